@@ -6,8 +6,8 @@ from .. import scenario
 ID = "C10"
 LEVEL = "fault_enumeration"
 RULE = ("the full cross product (declaration context: module / function / block, each declared as `const C: T = v`, `const C = v`, by "
-        "unpacking `const [C, z] = [v, 0]` or as `export const`; class name / imported module / imported module under another name / imported member) x (type: int, str, bool, [int...], int?, object with a field) x (write form: =, += -= *= /= %=, ?= in "
-        "statement / if / while position, modify = from an inner function, c[i] = v, c[i] += v, c.f = v, c.f += v, reuse as "
+        "unpacking `const [C, z] = [v, 0]` or as `export const`; class name / imported module / imported module under another name / imported member) x (type: int, str, bool, [int...], int?, object with a field, optional object, optional list) x (write form: =, += -= *= /= %=, ?= in "
+        "statement / if / while position, modify = from an inner function, c[i] = v, c[i] += v, c.f = v, c.f += v, (get c).f += v, (c or d).f += v, (get c)[i] += v, reuse as "
         "from-loop counter, unpacking) x (write context: same scope, nested block, loop body, nested function, method, another "
         "module), inapplicable combinations skipped by typing, is enumerated completely in both tiers. Oracle: the program is "
         "rejected at compile time, or - for forms that by the language's rules create a different variable (plain `=` inside a "
@@ -25,6 +25,8 @@ TYPES = {
     "list": ("[int...]", "[1, 2]", "[9]", "C", "[1, 2]"),
     "opt": ("int?", "5", "7", "C", "5"),
     "obj": (None, "K()", "K()", "C.f", "1"),
+    "optobj": ("K?", "K()", "K()", "(get C).f", "1"),
+    "optlist": ("[int...]?", "[1, 2]", "[9]", "get C", "[1, 2]"),
 }
 OPS = ["+=", "-=", "*=", "/=", "%="]
 
@@ -52,6 +54,11 @@ def write_forms(t):
     if t == "obj":
         out.append(("field-assign", "C.f = 9", False))
         out += [("field-op" + op, "C.f %s 9" % op, False) for op in ("+=", "*=")]
+    SEP = "if true {\n}\n"      # a statement must not start with `(` right after an expression: it would be parsed as a call
+    if t == "optobj":
+        out += [("unwrapped-field-op+=", SEP + "(get C).f += 9", False), ("or-field-op+=", SEP + "(C or K()).f += 9", False), ("unwrapped-field-op*=", SEP + "(get C).f *= 9", False)]
+    if t == "optlist":
+        out += [("unwrapped-index-op+=", SEP + "(get C)[0] += 9", False), ("or-index-op+=", SEP + "(C or [5])[0] += 9", False)]
     if t in ("int", "str", "bool", "opt"):
         out.append(("typed-redeclare", "C: %s = %s" % (ann, other), False))
     out.append(("modify", "modify C = %s" % other, True))
@@ -92,9 +99,9 @@ def decl_forms(decl_ctx, t):
     """declaration forms applicable to (context, type): `const C: T = v`, `const C = v`, `const [C, cz] = [v, 0]`,
     `export const C: T = v` (module level only); the optional type needs its annotation"""
     out = ["typed"]
-    if t not in ("opt", "obj"):
+    if t not in ("opt", "obj", "optobj", "optlist"):
         out.append("untyped")
-    if t != "opt":
+    if t not in ("opt", "optobj", "optlist"):
         out.append("unpack")
     if decl_ctx == "module" and t != "obj":
         out.append("export")
@@ -103,7 +110,7 @@ def decl_forms(decl_ctx, t):
 
 def program(decl_ctx, t, form, wtext, wctx, dform="typed"):
     ann, init, other, obs, exp = TYPES[t]
-    pre = "class K {\n\tf: int\n\tconstructor(self) {\n\t\tself.f = 1\n\t}\n}\n" if t == "obj" else ""
+    pre = "class K {\n\tf: int\n\tconstructor(self) {\n\t\tself.f = 1\n\t}\n}\n" if t in ("obj", "optobj") else ""
     if dform == "typed":
         decl = "const C%s = %s" % ((": " + ann) if ann else "", init)
     elif dform == "untyped":
@@ -113,7 +120,7 @@ def program(decl_ctx, t, form, wtext, wctx, dform="typed"):
     else:
         decl = "export const C: %s = %s" % (ann, init)
     aux = "src: int? = 7\n" if t == "opt" else ""
-    reader = "rd = fn() -> %s {\n\treturn %s\n}" % ({"int": "int", "str": "str", "bool": "bool", "list": "[int...]", "opt": "int?", "obj": "int"}[t], obs)
+    reader = "rd = fn() -> %s {\n\treturn %s\n}" % ({"int": "int", "str": "str", "bool": "bool", "list": "[int...]", "opt": "int?", "obj": "int", "optobj": "int", "optlist": "[int...]"}[t], obs)
     body = "%s\n%s%s\n%s\nprint \"@obs\"\nprint %s\nprint rd()" % (decl, aux, reader, place_write(wtext, wctx), obs)
     if decl_ctx == "module":
         return pre + "print \"@start\"\n" + body + "\n"
